@@ -6,7 +6,8 @@ Require Import WS.Base.Bytes WS.Base.Tape WS.Spec.Handshake WS.Model.Util WS.Mod
 Record dcase := {
   c_scheme : scheme; c_user : bool; c_host : bytes; c_key : bytes;
   c_dialer : dialer; c_caller : list (bytes * list bytes);
-  c_reply : reply; c_sent : bool   (* a request reached the network *)
+  c_reply : reply; c_sent : bool;  (* a request reached the network *)
+  c_target : bytes                 (* url.RequestURI(): path and query to request (oracle) *)
 }.
 
 Definition p_kvs : P (list (bytes * list bytes)) := pList (pPair pBytes (pList pBytes)).
@@ -16,12 +17,12 @@ Definition p_dcase : P dcase :=
   sc <- pN ;; us <- pBool ;; ho <- pBytes ;; ke <- pBytes ;;
   sp <- p_lines ;; cm <- pBool ;; ca <- p_kvs ;;
   st <- pN ;; up <- p_lines ;; co <- p_lines ;; ac <- p_lines ;; ex <- p_lines ;; pr <- p_lines ;; bl <- pN ;;
-  sent <- pBool ;;
+  sent <- pBool ;; tg <- pBytes ;;
   ret {| c_scheme := match sc with 0 => SWs | 1 => SWss | _ => SOther end; c_user := us; c_host := ho; c_key := ke;
          c_dialer := {| d_subprotocols := sp; d_compression := cm |}; c_caller := ca;
          c_reply := {| p_status := st; p_upgrade := up; p_connection := co; p_accept := ac; p_extensions := ex;
                        p_protocol := pr; p_body_len := bl |};
-         c_sent := sent |}.
+         c_sent := sent; c_target := tg |}.
 
 (* observation:
    0                         errMalformedURL, nothing sent
@@ -50,7 +51,7 @@ Definition model (k:dcase) : tape :=
   | PMalformed => [0]
   | PDuplicate _ => [1]     (* which of several offending names is reported depends on map order *)
   | PRequest host hdr =>
-      let req := eBytes host ++ e_kvs (sort_kvs (map (fun p => (canonical_key (fst p), snd p)) hdr)) in
+      let req := eBytes (c_target k) ++ eBytes host ++ e_kvs (sort_kvs (map (fun p => (canonical_key (fst p), snd p)) hdr)) in
       match validate_reply (c_key k) (c_reply k) with
       | VBadHandshake n => 2 :: n :: req
       | VInvalidCompression => 3 :: req
@@ -70,14 +71,46 @@ Definition reply_proves_acceptance (k:dcase) : bool :=
 Definition reply_wf (k:dcase) : bool :=
   forallb line_wf (p_upgrade (c_reply k)) && forallb line_wf (p_connection (c_reply k)).
 
+(* the request as observed: target, Host, header entries *)
+Definition p_req : P (bytes * bytes * list (bytes * list bytes)) :=
+  tg <- pBytes ;; ho <- pBytes ;; kv <- p_kvs ;; ret (tg, ho, kv).
+
+Definition kv_get (k:bytes) (kv:list (bytes * list bytes)) : list (list bytes) :=
+  map snd (filter (fun p => beq (fst p) k) kv).
+Definition once_with (k:bytes) (v:bytes) (kv:list (bytes * list bytes)) : bool :=
+  match kv_get k kv with [[x]] => beq x v | _ => false end.
+
+Definition request_ok (k:dcase) (r:bytes * bytes * list (bytes * list bytes)) : option N :=
+  let '(tg, ho, kv) := r in
+  if negb (beq tg (c_target k)) then Some 124                                   (* path / query not preserved *)
+  else if negb (once_with k_upgrade s_websocket kv) then Some 125               (* Upgrade: websocket, once *)
+  else if negb (once_with k_connection [85;112;103;114;97;100;101] kv) then Some 125
+  else if negb (once_with k_version [49;51] kv) then Some 125
+  else if negb (once_with k_key (c_key k) kv && valid_key (c_key k)) then Some 126   (* one fresh 16-byte key *)
+  else if negb (match kv_get k_extensions kv with
+                | [] => negb (d_compression (c_dialer k))
+                | [[x]] => d_compression (c_dialer k) && beq x offer
+                | _ => false end) then Some 127                                  (* offer iff enabled *)
+  else if negb (match d_subprotocols (c_dialer k) with
+                | [] => true
+                | ps => once_with k_protocol (join_comma ps) kv end) then Some 128
+  else None.
+
 Definition spec (k:dcase) (obs:tape) : option (N * tape) :=
+  let check_req (rest:tape) : option (N * tape) :=
+    match p_req rest with
+    | Some (r, _) => match request_ok k r with Some c => Some (c, []) | None => None end
+    | None => Some (199, [])
+    end in
   match obs with
-  | 4 :: _ => if negb (reply_proves_acceptance k) then Some (120, []) else None      (* connected without proof *)
-  | 2 :: n :: _ =>
-      if reply_proves_acceptance k && reply_wf k then Some (121, [])                 (* a proving reply was refused *)
-      else if 1024 <? n then Some (122, [n]) else None
-  | 0 :: _ | 1 :: _ => if c_sent k then Some (123, []) else None                     (* refused, yet something was sent *)
-  | 3 :: _ => None
+  | 4 :: _ :: rest =>
+      if negb (reply_proves_acceptance k) then Some (120, [])                      (* connected without proof *)
+      else match pBytes rest with Some (_, r2) => check_req r2 | None => Some (199, []) end
+  | 2 :: n :: rest =>
+      if reply_proves_acceptance k && reply_wf k then Some (121, [])               (* a proving reply was refused *)
+      else if 1024 <? n then Some (122, [n]) else check_req rest
+  | 0 :: _ | 1 :: _ => if c_sent k then Some (123, []) else None                   (* refused, yet something was sent *)
+  | 3 :: rest => check_req rest
   | _ => Some (199, [])
   end.
 
